@@ -389,6 +389,24 @@ def run(ctx):
                 break
         if len([v for v in ctx.violations if v['kind'] == 'ellipsis-enabled-relation']) > 2:
             break
+    # terminal control sequences other than colours are text like any other: window titles and hyperlinks (OSC sequences, ended by BEL or
+    # by ESC backslash, as `ls --hyperlink`, gcc and rich write them) - the visible words between two of them are pieces like all others
+    def link(url, text):
+        return '\x1b]8;;%s\x1b\\%s\x1b]8;;\x1b\\' % (url, text)
+    ogots = ['wrote ' + link('file:///tmp/report.html', 'report.html') + ' and ' + link('file:///tmp/log.txt', 'log.txt') + ' (2 files)',
+             '\x1b]0;build\x07step one\nstep two \x1b]0;done\x07finished',
+             link('http://a', 'alpha') + '\n' + link('http://b', 'beta') + '\n' + link('http://c', 'gamma'),
+             'title \x1b]2;x\x1b\\ body \x1b]2;y\x1b\\ tail']
+    owants = ['... report.html ... log.txt ...', 'wrote ... report.html... and ...log.txt... (2 files)', '... wrote (2 files)', '...step one\nstep two ...finished',
+              '...alpha...beta...gamma...', '...beta...alpha...', 'title ... body ... tail', 'title ... tail', '... body ...', 'title ...y... tail', '... (2 files)']
+    for w in owants:
+        for g in ogots:
+            non += 1
+            exp = spec_ellmatch(g, w)
+            if bool(checker.check_output(g, w, strict_on)) != exp:
+                ctx.violation('ellipsis-enabled-relation', {
+                    'what': "with ELLIPSIS on and every other leniency off check_output is %s, the wildcard relation says %s (texts with terminal hyperlinks / titles)" % (not exp, exp),
+                    'got': g, 'want': w, 'theorem_or_correspondence': 'C06_ellipsis_iff lifted to check_output(+ELLIPSIS)'}, True)
     ctx.evaluations += non
     ctx.count('enabled_relation_pairs', non)
     # ---- end to end: the flag as doctests switch it (every directive spelling, inline and block), on real DocTest runs
